@@ -16,14 +16,14 @@ CHECKS = {
     "C05": dict(
         engine="PoolMap",
         technique="TLC model checking of spec/PoolMap.tla (feasible completion orders x 4 consumers) + replay of every TLC terminal behaviour through a fake multiprocessing.Pool into the real entry points; thorough: trace validation of the real Pool against PoolMapTrace",
-        text="TLC enumerates every feasible completion order of a W-worker pool (W up to NT+1, NT up to 4/5 tasks; 6 for pair counting) and checks the consumers' folds are order independent; each of those orders is replayed on the real Catalog(), build_trees, count_pairs, HistData.from_catalog, and random feasible orders on crosscorrelate/autocorrelate, comparing bit-exact digests with the max_workers=1 run. The worlds use closed=left (and right) with every fourth redshift exactly on a bin edge, so the closed side must survive every pickling boundary. Exhaustive over schedules for small task counts, which no test can reach because the suite pins one worker.",
+        text="TLC enumerates every feasible completion order of a W-worker pool (W up to NT+1, NT up to 4/5 tasks; 6 for pair counting) and checks the consumers' folds are order independent; each of those orders is replayed on the real Catalog(), build_trees, count_pairs, HistData.from_catalog, and random feasible orders on crosscorrelate/autocorrelate, comparing bit-exact digests with the max_workers=1 run. The worlds use closed=left (and right) with every fourth redshift exactly on a bin edge, so the closed side must survive every pickling boundary; every other schedule runs with the progress display on, so results pass through the Indicator wrapper. Exhaustive over schedules for small task counts, which no test can reach because the suite pins one worker.",
         note="Trusts the fake Pool's dispatch rule (in-order, chunksize 1, pickling) - validated against the real multiprocessing.Pool in the thorough tier; tasks of one map are assumed to touch disjoint files.",
         ref="DESIGN.md 3.2, 4 C05",
     ),
     "C06": dict(
         engine="IterUnorderedMPI+CreateMPI+CollectiveIO",
         technique="TLC model checking (safety + liveness under weak fairness) of spec/IterUnorderedMPI.tla, CreateMPI.tla, CollectiveIO.tla on MPISem.tla; trace validation of the real library running on a fake mpi4py against IterUnorderedMPITrace/CreateMPITrace; replay of TLC counterexamples and simulated behaviours on the deterministic runtime",
-        text="TLC explores every interleaving (wildcard matches, eager vs rendezvous completion) of the iter_unordered protocol and of the MPI catalog-writer pipeline for world sizes 2..4(5), all max_workers, and proves termination, exactly-once execution and no record loss for the design; deviation configs reproduce the defects of the code as found. The real functions run on a deterministic fake mpi4py: their event logs must be behaviours of the specs (checked by TLC, incl. message class/argument/peer/mode), TLC behaviours are replayed into them, recorded collective skeletons are model-checked for all schedules, and the root's results of whole workloads are compared with a single-process reference under random schedules. Invalid requests that a single process rejects before touching data (probe larger than the random sample, missing cache, catalogs with different patch sets) must be rejected alike on every rank and the program must reach its next collective. Deadlock detection is exact.",
+        text="TLC explores every interleaving (wildcard matches, eager vs rendezvous completion) of the iter_unordered protocol and of the MPI catalog-writer pipeline for world sizes 2..4(5), all max_workers, and proves termination, exactly-once execution and no record loss for the design; deviation configs reproduce the defects of the code as found. The real functions run on a deterministic fake mpi4py: their event logs must be behaviours of the specs (checked by TLC, incl. message class/argument/peer/mode), TLC behaviours are replayed into them, recorded collective skeletons are model-checked for all schedules, and the root's results of whole workloads are compared with a single-process reference under random schedules. Invalid requests that a single process rejects before touching data (probe larger than the random sample, missing cache, catalogs with different patch sets) must be rejected alike on every rank and the program must reach its next collective. Workloads alternate the progress display and input tables sorted patch by patch (different sender ranks then hold different patches). Deadlock detection is exact.",
         note="Trusts the fake mpi4py as an implementation of MPISem.tla (MPI-3.1 point-to-point ordering and wildcard semantics, non-synchronising bcast/gather); no real MPI is available in the sandbox. Ranks are cooperative threads.",
         ref="DESIGN.md 3.1, 4 C06",
     ),
@@ -51,7 +51,7 @@ CHECKS = {
     "C07": dict(
         engine="CacheFS",
         technique="TLC model checking of spec/CacheFS.tla (tree-cache machine: reuse decision on the decoded binning file, rebuild protocol) over all crash-free histories of builds and measurements; histories (exhaustive short ones, TLC-simulated longer ones, interrupted builds, the deviation's counterexample) replayed on a real catalog cache with the cache state compared with the model after every operation",
-        text="The tree cache of a patch is a small state machine: a measurement reuses cached trees iff the binning file decodes to exactly the requested binning (edges and closed side; an empty or one-byte file decodes to 'unbinned'), otherwise it rebuilds. TLC proves HistoryIndependent/NeverWrongTrees for every history of up to 4(5) operations over 5 binnings (none, A, A with the other closed side, other edges, other bin count) with forced and unforced builds, and produces a counterexample when the closed side is ignored. The histories are replayed on a real cache through Catalog.build_trees and autocorrelate/crosscorrelate (binned reference role and unbinned unknown role, catalog reopened at random): every measurement must equal, bit for bit, the one obtained in a NEW interpreter on a fresh copy of the cache (so nothing kept in memory between calls can hide in the reference), and the decoded binning file / content of trees.pkl / rebuild-vs-reuse decision must match the model. The alphabet of histories includes edges that differ by a relative 2e-6, interrupted builds, builds on real worker processes, and measurements whose configurations share the binning but differ in scales or only in the parameters of a custom cosmology.",
+        text="The tree cache of a patch is a small state machine: a measurement reuses cached trees iff the binning file decodes to exactly the requested binning (edges and closed side; an empty or one-byte file decodes to 'unbinned'), otherwise it rebuilds. TLC proves HistoryIndependent/NeverWrongTrees for every history of up to 4(5) operations over 5 binnings (none, A, A with the other closed side, other edges, other bin count) with forced and unforced builds, and produces a counterexample when the closed side is ignored. The histories are replayed on a real cache through Catalog.build_trees and autocorrelate/crosscorrelate (binned reference role and unbinned unknown role, catalog reopened at random): every measurement must equal, bit for bit, the one obtained in a NEW interpreter on a fresh copy of the cache (so nothing kept in memory between calls can hide in the reference), and the decoded binning file / content of trees.pkl / rebuild-vs-reuse decision must match the model. The alphabet of histories includes edges that differ by a relative 2e-6, interrupted builds, builds on real worker processes, measurements whose configurations share the binning but differ in scales or only in the parameters of a custom cosmology (also built from one shared ScalesConfig object), a second long-lived handle of the cache directory, a coarse binning whose edges are all edges of a cached finer one, and a strip of six small patches whose linkage differs between a high- and a low-redshift configuration of the same scales.",
         note="Input redshifts include values exactly on bin edges so that the closed side is observable; one cosmology and one scale set.",
         ref="DESIGN.md 3.4, 4 C07",
     ),
@@ -65,7 +65,7 @@ CHECKS = {
     "C01": dict(
         engine="Sky+PairIter",
         technique="TLC model checking of spec/Sky.tla (discrete sky: assignment, radii, pruning, (lo,hi] rule, per-cell weight-product sums) over every scenario of several configuration families, with the scale->angle conversion and the pruning angle taken from the real code as TLC constants; sampled scenarios and every TLC counterexample realised on the real sphere under rigid placements and measured with crosscorrelate/autocorrelate, counts compared cell by cell with TLC's exact integers",
-        text="Sky.tla places objects on a 72-slot ring (5 deg lattice) with 2-3 patch centres, 2 redshift bins, one or several (also overlapping / descending) scales in angular, physical and comoving units, weights, and checks for EVERY scenario of each family (10^3..10^5 each) that the conservative pruning of patch pairs loses no pair, that linkage is symmetric and reflexive, that the cells partition the in-scale pairs; it prints the exact expected count of every (scale, bin, patch pair) cell and the per-bin weight sums. Deviation flags (radii of one catalog only; pruning angle at the floored redshift) must produce counterexamples, which are replayed on the code. A stratified sample of scenarios of every family is created with Catalog.from_dataframe on the real sphere (equator, across RA=0, over both poles, tilted great circles) and measured; because every scale threshold lies between lattice distances the counts of cross-, auto- and data-random pairs and sum_weights1/2 must equal the model's integers exactly. PairIter.tla models iter_patch_id_pairs (set.pop as a free choice) for every symmetric reflexive link relation on 3(4) patches: each linked pair exactly once, upper triangle for auto; the real iterator is run on every relation and its output must be one of the orders TLC enumerates. Families also cover very extended patches (radius_i + radius_j + max angle beyond pi) and binned objects exactly on bin edges for both closed sides.",
+        text="Sky.tla places objects on a 72-slot ring (5 deg lattice) with 2-3 patch centres, 2 redshift bins, one or several (also overlapping / descending) scales in angular, physical and comoving units, weights, and checks for EVERY scenario of each family (10^3..10^5 each) that the conservative pruning of patch pairs loses no pair, that linkage is symmetric and reflexive, that the cells partition the in-scale pairs; it prints the exact expected count of every (scale, bin, patch pair) cell and the per-bin weight sums. Deviation flags (radii of one catalog only; pruning angle at the floored redshift) must produce counterexamples, which are replayed on the code. A stratified sample of scenarios of every family is created with Catalog.from_dataframe on the real sphere (equator, across RA=0, over both poles, tilted great circles) and measured; because every scale threshold lies between lattice distances the counts of cross-, auto- and data-random pairs and sum_weights1/2 must equal the model's integers exactly. PairIter.tla models iter_patch_id_pairs (set.pop as a free choice) for every symmetric reflexive link relation on 3(4) patches: each linked pair exactly once, upper triangle for auto; the real iterator is run on every relation and its output must be one of the orders TLC enumerates. Families also cover very extended patches (radius_i + radius_j + max angle beyond pi), binned objects exactly on bin edges for both closed sides and physical scales in a curved cosmology; the scale-to-angle constants of the model are computed from astropy directly. Every realisation also measures RD and RR against a copy of the reference sample as reference randoms, runs after a pre-history of the tree caches (other closed side, edges moved by 2e-6), and half of the scenarios whose unknown objects all have weight 1 create those catalogs without a weight column.",
         note="Separations are multiples of 5 deg: geometry between lattice points (C14) is not exercised. Scenarios have 2-3 objects per catalog. With separation weighting TLC supplies the exact weight-product sum per lattice distance and the driver applies the power-law factor of the fine separation bin (plain float arithmetic, 1e-9 relative).",
         ref="DESIGN.md 3.5, 4 C01",
     ),
@@ -79,7 +79,7 @@ CHECKS = {
     "C12": dict(
         engine="Sky",
         technique="TLC enumeration of 3-centre scenarios (spec/Sky.tla: Nearest, Members, NumRecords, SumW, Radius, MetaDescribesPatch); realisation with every order of the centre list, in patch-index and generated-centre mode, reload on the fake multiprocessing runtime; metadata compared with the model; refusal cases for misaligned catalogs",
-        text="For every scenario of a family with three centres, single-object patches and unequal extents TLC prints per catalog and patch the record count, weight sum and radius in lattice steps. Scenarios are realised with the centres given in all 6 orders under 6 placements: keys must be 0..N-1, patch k must carry the k-th given centre, counts/weight sums equal, radius = k*delta to 1e-9, every record within the stored radius of the stored centre (independent great-circle routine), and nearest-reported-centre must reproduce the partition; the cache is reloaded with 3 workers under scrambled completion orders. Measurements must raise InconsistentPatchesError for differing patch id sets, swapped patches, centres farther apart than the radius (incl. a single-object patch of radius 0) and must accept aligned catalogs. A given centre that attracts no object is inserted at every list position: creation must refuse, and a catalog that comes back must still have patch i = centre i.",
+        text="For every scenario of a family with three centres, single-object patches and unequal extents TLC prints per catalog and patch the record count, weight sum and radius in lattice steps. Scenarios are realised with the centres given in all 6 orders under 6 placements: keys must be 0..N-1, patch k must carry the k-th given centre, counts/weight sums equal, radius = k*delta to 1e-9, every record within the stored radius of the stored centre (independent great-circle routine), and nearest-reported-centre must reproduce the partition; the cache is reloaded with 3 workers under scrambled completion orders. Measurements must raise InconsistentPatchesError for differing patch id sets, swapped patches, centres farther apart than the radius (incl. a single-object patch of radius 0) and must accept aligned catalogs. A given centre that attracts no object is inserted at every list position: creation must refuse, and a catalog that comes back must still have patch i = centre i. Centres given together with a stale patch column must behave like centres alone; in a four-catalog crosscorrelate the misaligned catalog is put into every role, with and without a legitimately wide patch in another catalog.",
         note="k-means centres (patch_num) are not fixed by the property: only that the metadata describe the resulting patches.",
         ref="DESIGN.md 3.5, 4 C12",
     ),
@@ -121,7 +121,7 @@ CHECKS = {
     "C13": dict(
         engine="Sky",
         technique="TLC model checking of the symmetry invariants of spec/Sky.tla (ring shift, reflection, weight scale, catalog split) on every scenario; metamorphic replay of TLC scenarios on the real sphere: rigid placements incl. both poles and the RA wrap, random rotation, shuffled rows in several chunks, all centre permutations, weight factors, catalog split, data-derived inherited centres",
-        text="RotationInvariant, ReflectionInvariant, WeightScaling and SplitAdditive are invariants of the model's count function, checked by TLC for all scenarios of two small families; a family with 3+2(3) weighted objects supplies the scenarios that are realised. Each case (data from one scenario, randoms from another) is measured with crosscorrelate/autocorrelate untransformed and under 5 further rigid placements, one random rotation, two row shuffles (chunksize 2), every permutation of the centre list (jackknife samples must permute accordingly), weights x3 / x0.37, and a split of the unknown catalog (raw counts must add exactly); amplitudes, jackknife samples, covariance and the redshift estimate must agree to 1e-9 (entries that are undefined in one run - x/0 of a sample without random pairs - only have to stay degenerate). A dense case derives the centres from the data (patch index column), lets the other catalogs inherit them and rotates everything next to either pole. Weight factors include 3, 0.37 and exact powers of two down to 2^-40 / up to 2^40, alone and on both catalogs, so no absolute weight scale may enter.",
+        text="RotationInvariant, ReflectionInvariant, WeightScaling and SplitAdditive are invariants of the model's count function, checked by TLC for all scenarios of two small families; a family with 3+2(3) weighted objects supplies the scenarios that are realised. Each case (data from one scenario, randoms from another) is measured with crosscorrelate/autocorrelate untransformed and under 5 further rigid placements, one random rotation, two row shuffles (chunksize 2), every permutation of the centre list (jackknife samples must permute accordingly), weights x3 / x0.37, and a split of the unknown catalog (raw counts must add exactly); amplitudes, jackknife samples, covariance and the redshift estimate must agree to 1e-9 (entries that are undefined in one run - x/0 of a sample without random pairs - only have to stay degenerate). A dense case derives the centres from the data (patch index column), lets the other catalogs inherit them and rotates everything next to either pole. Weight factors include 3, 0.37 and exact powers of two down to 2^-40 / up to 2^40, alone and on both catalogs, so no absolute weight scale may enter; the Landy-Szalay estimate with both random catalogs is compared as well, and a weighted reference is scaled against an unknown sample that has no weight column.",
         note="The continuous rotation group is sampled (six placements of the 5-deg lattice plus random rotations), not enumerated.",
         ref="DESIGN.md 3.5, 4 C13",
     ),
